@@ -140,17 +140,20 @@ class SequentialSumProduct(Contract):
     def structures(self, tier):
         yield "step_pairs=1", 1
         yield "step_pairs=2", 2
+        yield "step_pairs=2,crossed-names", -2  # prev names sort in the opposite order of their curr names
 
     def build(self, p, npairs):
         T = p.fresh_int("T")
         p.assume(T >= 1)
-        step = {"p%d" % i: "c%d" % i for i in range(npairs)}
+        crossed = npairs < 0
+        npairs = abs(npairs)
+        step = {"p%d" % i: "c%d" % ((npairs - 1 - i) if crossed else i) for i in range(npairs)}
         others = OrderedDict()
         for i in range(npairs):
             n = p.fresh_int("state%d" % i)
             p.assume(n >= 1)
             others["p%d" % i] = MDom(n, ())
-            others["c%d" % i] = MDom(n, ())
+            others[step["p%d" % i]] = MDom(n, ())
         F0 = z3.Function("trans0!%d" % next(p.counter), z3.IntSort(), E)
         checks = []
         trans = TransM(lambda k: SV(F0(core._lift(k))), T, "t", others, {}, checks)
@@ -388,3 +391,79 @@ class MixedSequentialSumProduct(Contract):
 
     def hints(self, ctx, path):
         return div_hints(path) + mul_hints(path)
+
+
+
+@register
+class EagerMarkovProduct(Contract):
+    """eager_markov_product(sum_op, prod_op, trans, time, step, step_names): with a non-empty step the result is ALWAYS the
+    scan sequential_sum_product(sum_op, prod_op, trans, time, dict(step)) (whether or not trans depends on time) renamed by
+    step_names; with an empty step: the prod_op-reduction over time if trans depends on time, else the time-fold of a
+    constant factor (law L3: trans * T for add, trans ** T for mul, T the size of the time domain) or an error -- never the
+    elementwise power when there is a step."""
+
+    props = ("C10",)
+    file = "funsor/sum_product.py"
+    qualname = "eager_markov_product"
+    mutants = (("time-independent shortcut taken before looking at step", "    if step:\n        result = sequential_sum_product(sum_op, prod_op, trans, time, dict(step))\n    elif time.name in trans.inputs:", "    if step and time.name in trans.inputs:\n        result = sequential_sum_product(sum_op, prod_op, trans, time, dict(step))\n    elif time.name in trans.inputs:"),)
+
+    def structures(self, tier):
+        for has_step in (True, False):
+            for dep in (True, False):
+                for op in ("add", "mul", "max"):
+                    yield "step=%s,trans_depends_on_time=%s,prod=%s" % (has_step, dep, op), (has_step, dep, op)
+
+    def build(self, p, st):
+        has_step, dep, op = st
+        T = p.fresh_int("T")
+        p.assume(T >= 1)
+
+        class Tr(MTerm):
+            inputs = OrderedDict([("t", MDom(T, ()))] if dep else [])
+
+            def reduce(self, o, name):
+                return ("reduce", self, o, name)
+
+            def __mul__(self, o):
+                return ("mul", self, o)
+
+            def __pow__(self, o):
+                return ("pow", self, o)
+
+        tr = Tr()
+        class TimeVar(VariableM):
+            @property
+            def size(self):  # the real Variable has no attribute `size`: the pinned rule raises AttributeError here
+                raise Declined("AttributeError", "'Variable' object has no attribute 'size'")
+
+        time = TimeVar("t", MDom(T, ()))
+        ops_ = type("O", (), {"add": "add-op", "mul": "mul-op"})
+        prod = {"add": "add-op", "mul": "mul-op", "max": "max-op"}[op]
+        step = frozenset([("p", "c")]) if has_step else frozenset()
+        calls = []
+
+        def seq(*a):
+            calls.append(a)
+            return ("scan", a)
+
+        ns = dict(sequential_sum_product=seq, ops=ops_, Subs=lambda r, names: ("Subs", r, names), dict=dict)
+        return Ctx(args=("sum-op", prod, tr, time, step, frozenset([("p", "x")])), namespace=ns, tr=tr, T=T, st=st, calls=calls, time=time, prod=prod)
+
+    def may_raise(self, ctx, etype):
+        has_step, dep, op = ctx.st
+        return (not has_step) and (not dep)
+
+    def allow_vacuous(self, st):
+        return (not st[0]) and (not st[1])
+
+    def ensures(self, ctx, result):
+        has_step, dep, op = ctx.st
+        names = frozenset([("p", "x")])
+        if has_step:
+            exp_call = ("sum-op", ctx.prod, ctx.tr, ctx.time, {"p": "c"})
+            return [("scans_whenever_there_is_a_step", ctx.calls == [exp_call] and result == ("Subs", ("scan", exp_call), names))]
+        if dep:
+            return [("reduces_over_time_with_the_product", ctx.calls == [] and result == ("Subs", ("reduce", ctx.tr, ctx.prod, "t"), names))]
+        tag = {"add": "mul", "mul": "pow"}.get(op)
+        ok = isinstance(result, tuple) and result[0] == "Subs" and isinstance(result[1], tuple) and result[1][0] == tag and result[1][1] is ctx.tr and result[2] == names
+        return [("constant_factor_folded_T_times", core.And(ok, deep_eq(result[1][2], ctx.T)) if ok else False)]
